@@ -5,7 +5,7 @@ use secp256k1::PublicKey;
 use tokio::sync::{mpsc, oneshot, Mutex};
 
 use anyhow::{anyhow, Context, Result};
-use secp256k1::hashes::sha256::Hash;
+use secp256k1::hashes::{sha256::Hash, Hash as _};
 use tracing::{debug, error, field, instrument, trace, warn};
 
 use crate::{
@@ -306,6 +306,14 @@ where
                 return Err(anyhow!("invalid trampoline invoice in tlv"));
             }
         };
+
+        // The htlc can only be claimed with the preimage of its own payment
+        // hash, so the invoice to pay must be for that same payment hash.
+        if invoice.payment_hash().to_byte_array().as_slice() != req.htlc.payment_hash.as_slice() {
+            return Err(anyhow!(
+                "trampoline invoice payment hash does not match htlc payment hash"
+            ));
+        }
 
         // For now invoices need to have a valid signature, because the `pay`
         // command requires invoices to have a valid signature. Once we move away
